@@ -1128,5 +1128,8 @@ func (p *Parser) requireInt() (int64, error) {
 		return 0, err
 	}
 	val, err := p.Prev().Val()
-	return val.(int64), err
+	if err != nil {
+		return 0, err
+	}
+	return val.(int64), nil
 }
